@@ -151,6 +151,71 @@ fn supervised(case: &Case, known: &Known) -> Verdict {
 }
 
 // ---------------------------------------------------------------------------
+// stderr filter
+// ---------------------------------------------------------------------------
+
+/// The cache reports every rejected validation and every layer error with
+/// `eprintln!` (thousands of lines per run). While the sections run, stderr goes
+/// through a pipe and only lines that are not that chatter are passed on.
+struct StderrFilter {
+    real: i32,
+    reader: Option<std::thread::JoinHandle<u64>>,
+}
+
+fn is_cache_chatter(line: &str) -> bool {
+    line.starts_with("Validation error for cached content key")
+        || line.starts_with("Content validation failed for key")
+        || line.starts_with("Cache corruption detected")
+        || (line.starts_with("Layer ") && line.contains(" error for key "))
+}
+
+impl StderrFilter {
+    fn install() -> Option<Self> {
+        use std::io::{BufRead, BufReader, Write};
+        use std::os::fd::FromRawFd;
+        let mut fds = [0i32; 2];
+        // SAFETY: plain POSIX descriptor plumbing on descriptors owned by this process.
+        let (real, rd) = unsafe {
+            if libc::pipe(fds.as_mut_ptr()) != 0 {
+                return None;
+            }
+            let real = libc::dup(2);
+            if real < 0 || libc::dup2(fds[1], 2) < 0 {
+                return None;
+            }
+            libc::close(fds[1]);
+            (real, fds[0])
+        };
+        let reader = std::thread::spawn(move || {
+            // SAFETY: `rd` and the duplicate of `real` are open descriptors handed over to this thread.
+            let (inp, mut out) = unsafe { (std::fs::File::from_raw_fd(rd), std::fs::File::from_raw_fd(libc::dup(real))) };
+            let mut dropped = 0u64;
+            for line in BufReader::new(inp).split(b'\n').map_while(Result::ok) {
+                let txt = String::from_utf8_lossy(&line);
+                if is_cache_chatter(&txt) {
+                    dropped += 1;
+                } else {
+                    let _ = out.write_all(&line);
+                    let _ = out.write_all(b"\n");
+                }
+            }
+            dropped
+        });
+        Some(StderrFilter { real, reader: Some(reader) })
+    }
+
+    /// Put the real stderr back and return the number of suppressed lines.
+    fn remove(mut self) -> u64 {
+        // SAFETY: restores descriptor 2 from the duplicate taken in `install`; this closes the pipe's only write end.
+        unsafe {
+            libc::dup2(self.real, 2);
+            libc::close(self.real);
+        }
+        self.reader.take().and_then(|h| h.join().ok()).unwrap_or(0)
+    }
+}
+
+// ---------------------------------------------------------------------------
 // generators
 // ---------------------------------------------------------------------------
 
@@ -298,6 +363,7 @@ fn main() {
     // In --replay mode nothing is tolerated inside a history: the first finding ends the case
     // with its key and the engine reports it as KNOWN-FINDING / VIOLATION.
     let known = if ck.is_replay() { Known::default() } else { ck.known().clone() };
+    let filter = if ck.is_replay() { None } else { StderrFilter::install() };
 
     let k1 = known.clone();
     ck.run(Section::pbt("layered-history", tier.pick(1500, 150_000), case_s, move |c: &Case| supervised(c, &k1)).shards(16).shrink_iters(1500));
@@ -317,6 +383,9 @@ fn main() {
         .shards(16),
     );
 
+    if let Some(f) = filter {
+        ck.extra("cache_stderr_lines_suppressed", f.remove().into());
+    }
     if let Ok(g) = INFRA_EVENTS.lock() {
         for e in g.iter() {
             ck.infra(e.clone());
